@@ -213,6 +213,11 @@ class Interp:
                 return obj.fields[name]
             m = self.method(obj, name)
             if m is not None and m.is_property:
+                if m.is_cached:
+                    memo = obj.__dict__.setdefault("memo", {})
+                    if name not in memo:
+                        memo[name] = self.call_func(m, [], {}, obj, depth + 1)
+                    return memo[name]
                 return self.call_func(m, [], {}, obj, depth + 1)
             if m is not None:
                 return ("bound", m, obj)
@@ -869,7 +874,7 @@ class Interp:
             import itertools as _it
             return list(_it.zip_longest(*[self.iterate(a) for a in args]))
         if name == "reversed":
-            return list(reversed(self.iterate(args[0])))
+            return _Gen(list(reversed(self.iterate(args[0]))))
         if name == "zip":
             return list(zip(*[self.iterate(a) for a in args]))
         if name == "range":
